@@ -159,8 +159,14 @@ def run(ctx):
     plans = [{"MaxOps": 3, "Level": 1}, {"MaxOps": 2, "Level": 3}] if not ctx.thorough else \
             [{"MaxOps": 4, "Level": 1}, {"MaxOps": 3, "Level": 2}, {"MaxOps": 2, "Level": 3}]
     allcases = []
+    sampled = False
     for consts in plans:
         cases = ctx.tlc_gen("object", "TreeEditor_Gen", consts=consts, timeout=3000)
+        if len(cases) > 250000:
+            # millions of histories in the thorough tier: TLC has enumerated them all, a seeded sample is replayed
+            ctx.cov["generated_histories"] = ctx.cov.get("generated_histories", 0) + len(cases)
+            cases = ctx.rng.sample(cases, 250000)
+            sampled = True
         results = ctx.harness(binary, cases, timeout=3000)
         for c, r in zip(cases, results):
             why = judge_case(ctx, c, r)
@@ -172,7 +178,7 @@ def run(ctx):
                 ctx.violation({"kind": "gen", "case": c, "what": why, "ops": ops})
         allcases.append((cases, results))
         del results
-    ctx.cov["exhaustive"] = True
+    ctx.cov["exhaustive"] = not sampled
     cases = allcases[0][0]
     ctx.sample({"root": cases[len(cases) // 2]["root"], "steps": cases[len(cases) // 2]["steps"]})
 
